@@ -25,9 +25,10 @@ import (
 )
 
 var fullRoles = wamp.Dict{"roles": wamp.Dict{
-	"caller": wamp.Dict{"features": wamp.Dict{"call_canceling": true, "progressive_call_results": true, "call_timeout": true}},
+	"caller": wamp.Dict{"features": wamp.Dict{"call_canceling": true, "progressive_call_results": true, "call_timeout": true,
+		"progressive_call_invocations": true}},
 	"callee": wamp.Dict{"features": wamp.Dict{"call_canceling": true, "progressive_call_results": true,
-		"shared_registration": true, "pattern_based_registration": true}},
+		"shared_registration": true, "pattern_based_registration": true, "progressive_call_invocations": true}},
 	"publisher":  wamp.Dict{"features": wamp.Dict{"publisher_exclusion": true}},
 	"subscriber": wamp.Dict{"features": wamp.Dict{"pattern_based_subscription": true}},
 }}
